@@ -1,13 +1,23 @@
-"""C15 correspondence: multiplication arithmetic, model vs gfapy."""
+"""C15 correspondence: multiplication arithmetic, and the whole multiply operation on graphs without link distribution
+(GfaModel/MultiplyGraph.lean vs Gfa.multiply: complete observation afterwards), model vs gfapy."""
 from harness import lib
 from harness.lib import op
+from harness.props import _graphgen as G
+from harness.corr.graphcorr import supported_add
 
 
 def budget(tier):
-    return 300 if tier == "quick" else 8000
+    return 500 if tier == "quick" else 10000
 
 
 def gen_case(rng, tier, i):
+    if rng.random() < 0.5:
+        c = G.gen_graph(rng, tier, counts=True, max_segs=6)
+        c["kind"] = "graph"
+        c["factor"] = rng.choice([0, 1, 2, 2, 3, 3, 4])
+        c["pick"] = rng.randrange(1000)
+        c["given"] = rng.random() < 0.4
+        return c
     k = rng.choice(["auto", "windows", "names"])
     if k == "auto":
         return {"kind": "auto", "k": rng.randint(0, 7), "b": rng.randint(0, 7), "e": rng.randint(0, 7), "eq": rng.random() < 0.4}
@@ -25,8 +35,43 @@ def nontrivial(case):
     return True
 
 
+def graph_ops(case):
+    gfapy = lib.import_gfapy()
+    v = case["version"]
+    if not all(supported_add(l) for l in case["lines"]):
+        return [], []
+    try:
+        g = gfapy.Gfa(version=v, vlevel=1)
+        for l in case["lines"]:
+            g.add_line(l)
+    except gfapy.Error:
+        return [], []
+    segs = list(g.segment_names)
+    if not segs:
+        return [], []
+    ops = [op("g.new", v)] + [op("g.add", str(l)) for l in g.lines if l.record_type in "SLCPEGFOU"]
+    exp = ["ok"] * len(ops)
+    sn = segs[case["pick"] % len(segs)]
+    k = case["factor"]
+    if k >= 2:
+        names = (["cp%d_%s" % (j, sn) for j in range(k - 1)] if case["given"] else g._compute_copy_names(sn, k))
+    else:
+        names = []
+    r = lib.outcome(g.multiply, sn, k, copy_names=(names if k >= 2 else None))
+    if r[0] != "ok":
+        return [], []     # what multiply refuses is the oracle's business
+    o = lib.outcome(lib.obs_flat, g)
+    if o[0] != "ok" or "# INVALID" in o[1]:
+        return [], []
+    ops.append(op("g.multiply", sn, k, ",".join(names))); exp.append("ok")
+    ops.append(op("g.obs")); exp.append("ok " + o[1])
+    return ops, exp
+
+
 def model_ops(case):
     gfapy = lib.import_gfapy()
+    if case["kind"] == "graph":
+        return graph_ops(case)
     from gfapy.graph_operations.multiplication import Multiplication
     if case["kind"] == "auto":
         r = Multiplication._auto_select_distribute_end(case["k"], case["b"], case["e"], case["eq"])
